@@ -73,7 +73,7 @@ C_Tgt ==
           [] Ev.op = "commit" -> Ev.res \in Res /\ TCommit(Ev.tgt, Ev.res)
           [] Ev.op = "abort"  -> Ev.res \in Res /\ TAbort(Ev.tgt, Ev.res)
           [] OTHER -> FALSE
-     \/ Ev.ts = "closed" /\ Ev.op = "abort" /\ Ev.res = "ok" /\ CrashAbort(Ev.tgt)
+     \/ Ev.ts = "closed" /\ Ev.op = "abort" /\ CrashAbort(Ev.tgt)
 
 C_End == /\ IsEv("End") /\ PermitsMatch
          /\ \A t \in AllTargets : Ev.open[t] = obs.open[t]
